@@ -192,4 +192,14 @@ theorem parityTo_swap (n a b : Nat) (f : Nat → Bool) (ha : a < n) (hb : b < n)
     generalize parityTo n f = v at key
     cases u <;> cases v <;> simp at key ⊢
 
+/-- parity over a concatenated range splits -/
+theorem parityTo_add (a b : Nat) (f : Nat → Bool) :
+    parityTo (a + b) f = xor (parityTo a f) (parityTo b (fun j => f (a + j))) := by
+  induction b with
+  | zero => simp [parityTo]
+  | succ k ih =>
+    show parityTo (a + k + 1) f = _
+    simp only [parityTo, ih]
+    cases parityTo a f <;> cases parityTo k (fun j => f (a + j)) <;> cases f (a + k) <;> rfl
+
 end Graphiq
